@@ -210,6 +210,15 @@ impl GenerationPass for AvailableValuePass {
                     } else if let Some((memory, value)) = node.gen_memory_value() {
                         map.insert(memory, value);
                     }
+                    if node.calls_to().is_some() {
+                        // The callee is free to use everything below the stack pointer
+                        let curr_stack = node.reg_values_in().stack_offset();
+                        map = retain_values(map, |location, _| match (location, curr_stack) {
+                            (MemoryLocation::StackOffset(slot), Some(curr)) => *slot >= curr,
+                            (MemoryLocation::StackOffset(_), None) => false,
+                            _ => true,
+                        });
+                    }
                     map
                 };
 
